@@ -110,15 +110,22 @@ Proof.
            ++ (* the measure drops by a factor of four *)
               assert (Q1 : 1 <= q1) by (subst q1; apply Z.div_le_lower_bound; lia).
               assert (Q2 : 1 <= q2) by (subst q2; apply Z.div_le_lower_bound; lia).
-              assert (A : 2 * r1 < n1) by nia.
-              assert (B : 2 * r2 < n2) by nia.
+              assert (L1 : d1 * 1 <= d1 * q1) by (apply Z.mul_le_mono_nonneg_l; lia).
+              assert (L2 : d2 * 1 <= d2 * q2) by (apply Z.mul_le_mono_nonneg_l; lia).
+              assert (A : 2 * r1 < n1) by lia.
+              assert (B : 2 * r2 < n2) by lia.
               rewrite Nat2Z.inj_succ, Z.pow_succ_r in Hm by lia.
-              assert (C : 2 * (d1 * r1) < n1 * d1) by nia.
-              assert (D : 2 * (d2 * r2) < n2 * d2) by nia.
-              assert (P1 : 0 < d1 * r1) by nia. assert (P2 : 0 < d2 * r2) by nia.
+              assert (C : 2 * (d1 * r1) < n1 * d1).
+              { replace (2 * (d1 * r1)) with (d1 * (2 * r1)) by ring. rewrite (Z.mul_comm n1 d1).
+                apply Z.mul_lt_mono_pos_l; lia. }
+              assert (D : 2 * (d2 * r2) < n2 * d2).
+              { replace (2 * (d2 * r2)) with (d2 * (2 * r2)) by ring. rewrite (Z.mul_comm n2 d2).
+                apply Z.mul_lt_mono_pos_l; lia. }
+              assert (P1 : 0 < d1 * r1) by (apply Z.mul_pos_pos; lia).
+              assert (P2 : 0 < d2 * r2) by (apply Z.mul_pos_pos; lia).
               assert (F : (2 * (d2 * r2)) * (2 * (d1 * r1)) < (n2 * d2) * (n1 * d1)).
               { apply Z.mul_lt_mono_nonneg; lia. }
-              nia.
+              clear - F Hm. lia.
     + apply Z.eqb_neq in Eq. f_equal. apply S1; exact Eq.
 Qed.
 
@@ -149,8 +156,10 @@ Proof.
         -- rewrite (Z.mul_comm d2 r1), (Z.mul_comm d1 r2). reflexivity.
         -- assert (B : 4 ^ Z.of_nat 126 = (MAX64 + 1) * (MAX64 + 1) * ((MAX64 + 1) * (MAX64 + 1))) by reflexivity.
            rewrite B.
-           assert (P1 : 0 < d2 * r2 < (MAX64 + 1) * (MAX64 + 1)) by (unfold MAX64 in *; nia).
-           assert (P2 : 0 < d1 * r1 < (MAX64 + 1) * (MAX64 + 1)) by (unfold MAX64 in *; nia).
+           assert (P1 : 0 < d2 * r2 < (MAX64 + 1) * (MAX64 + 1)).
+           { split; [apply Z.mul_pos_pos; lia | apply Z.mul_lt_mono_nonneg; lia]. }
+           assert (P2 : 0 < d1 * r1 < (MAX64 + 1) * (MAX64 + 1)).
+           { split; [apply Z.mul_pos_pos; lia | apply Z.mul_lt_mono_nonneg; lia]. }
            apply Z.mul_lt_mono_nonneg; lia.
   - apply Z.eqb_neq in Eq. f_equal. apply S1; exact Eq.
 Qed.
